@@ -1,5 +1,6 @@
 import Ktm.CoreC23
 import Ktm.Persist
+import Ktm.TunerFile
 /-! # C02 — `max_trials` is a hard budget on distinct trials
 
 Same model as C01 (`Core.create / update / endT` over any `Alg`), plus `Core.reload` for the restart
@@ -120,5 +121,18 @@ theorem budget_after_reload (alg : Alg V A) (o cfg : Oracle V A) (d : Disk V A) 
 example : let alg : Alg Nat Unit := { populate := fun _ c => ((), .run c), onEnd := fun a _ => a, scoreOf := fun l => l.getLast?.join }
     let o := run alg (init () (some 2) 1 3) [.create 0 7, .create 1 8, .endT 0 .invalid, .create 2 9, .create 0 5]
     o.trials.length = 2 ∧ (match (create alg o 3 0).2 with | .stopped => true | _ => false) = true ∧ remaining o = some 0 := by decide
+
+/-- restart at tuner level: `BaseTuner` reloads only when its own state file exists, and writes that file at the end of every
+`on_trial_end`. For every number of trials and EVERY crash point of the search's write sequence the restarted tuner knows every
+trial the disk records as ended (so `remaining_trials = N − n` goes on holding across the restart) — except in the window
+"exactly one trial ended, tuner file not yet written" (known finding F18, C08) -/
+theorem tuner_restart_knows_finished_trials (n k : Nat) :
+    TunerFile.restartKnows (TunerFile.disk ((TunerFile.searchWrites n).take k)) = (TunerFile.disk ((TunerFile.searchWrites n).take k)).1 ∨
+    ((TunerFile.disk ((TunerFile.searchWrites n).take k)).1 = 1 ∧ (TunerFile.disk ((TunerFile.searchWrites n).take k)).2 = false) :=
+  TunerFile.restart_knows_all_but_window n k
+
+/-- non-vacuity / the other side: a tuner that wrote its file only when the search is over would forget two finished trials -/
+example : (TunerFile.disk (TunerFile.lateWrites 2)).1 = 2 ∧ TunerFile.restartKnows (TunerFile.disk (TunerFile.lateWrites 2)) = 0 :=
+  TunerFile.late_tuner_file_forgets
 
 end Props.C02
